@@ -178,21 +178,34 @@ def _txt(v):
     return v if isinstance(v, str) else repr(v)
 
 
-def write_and_read(fmt, system, opts, work):
-    """-> (text, molecules read back | None, error text)."""
-    import vermouth
-    from vermouth.system import System
-    path = os.path.join(work, 'sys_%d.%s' % (os.getpid(), fmt))
+def _write(fmt, system, opts, path):
     if fmt == 'pdb':
         from vermouth.pdb import pdb
         if opts.get('writer') == 'file':
             pdb.write_pdb(system, path, defer_writing=False)
             with open(path) as fh:
-                text = fh.read()
-        else:
-            text = pdb.write_pdb_string(system)
-            with open(path, 'w') as fh:
-                fh.write(text)
+                return fh.read()
+        text = pdb.write_pdb_string(system)
+        with open(path, 'w') as fh:
+            fh.write(text)
+        return text
+    from vermouth.gmx import gro
+    gro.write_gro(system, path, defer_writing=False)
+    with open(path) as fh:
+        return fh.read()
+
+
+def write_and_read(fmt, system, opts, work):
+    """-> (text, molecules read back | None, error text)."""
+    import vermouth
+    from vermouth.system import System
+    path = os.path.join(work, 'sys_%d.%s' % (os.getpid(), fmt))
+    try:
+        text = _write(fmt, system, opts, path)
+    except Exception as exc:        # the writer must take every system C16 specifies
+        return '', None, 'writer raised ' + repr(exc)[:200]
+    if fmt == 'pdb':
+        from vermouth.pdb import pdb
         try:
             if opts.get('reader') == 'processor':
                 out = System()
@@ -201,12 +214,9 @@ def write_and_read(fmt, system, opts, work):
             else:
                 mols = list(pdb.read_pdb(path, exclude=()))
         except Exception as exc:    # the reader must take every file the writer produced
-            return text, None, repr(exc)[:200]
+            return text, None, 'reader raised ' + repr(exc)[:200]
     else:
         from vermouth.gmx import gro
-        gro.write_gro(system, path, defer_writing=False)
-        with open(path) as fh:
-            text = fh.read()
         try:
             if opts.get('reader') == 'processor':
                 from vermouth.processors.gro_reader import GROInput
@@ -216,7 +226,7 @@ def write_and_read(fmt, system, opts, work):
             else:
                 mols = [gro.read_gro(path, exclude=())]
         except Exception as exc:
-            return text, None, repr(exc)[:200]
+            return text, None, 'reader raised ' + repr(exc)[:200]
     os.remove(path)
     return text, mols, ''
 
@@ -269,6 +279,8 @@ def make_events(sid, fmt, sizes, atoms, bonds, text, mols, readerr):
             g = sum(sizes[:k + 1]) if k < len(sizes) else len(atoms)
             a = attrs[g - 1]
             ters.append({'line': ln, 'resname': a['resname'], 'chain': a['chain'], 'resid': a['resid'], 'icode': a['icode']})
+        if readerr.startswith('writer'):
+            layout = []
         events.append({'kind': 'pdbstruct', 'sid': sid, 'sizes': sizes, 'bonds': [list(b) for b in bonds], 'layout': layout,
                        'ters': ters, 'conect': [ln for ln, r in zip(lines, recs) if r == 'CONECT'],
                        'read_sizes': rsizes, 'read_bonds': rbonds, 'readerr': readerr})
@@ -470,6 +482,7 @@ def run_shipped(task):
         if pc:
             out['bad'].append(('coordinate-precision', {'fmt': fmt, 'shipped': opts['shipped'], 'atom': pc[0]},
                                'atom %d of %s: coordinate off by %.6f' % (pc[0], path, pc[1])))
+    shutil.rmtree(work, ignore_errors=True)
     return out
 
 
@@ -708,7 +721,7 @@ def replay(sc):
             print('   line written : %r' % (lines[g - 1] if g - 1 < len(lines) else None))
             print('   read back    : %r' % (back[g - 1] if g - 1 < len(back) else None))
         if readerr:
-            print('reader raised', readerr)
+            print(readerr)
         if bonds:
             print('bonds written:', bonds[:20], '...' if len(bonds) > 20 else '')
             print('CONECT lines :', [ln for ln in text.split('\n') if ln.startswith('CONECT')][:10])
